@@ -347,6 +347,36 @@ EXPLANATION = (
     "argument arrays.")
 
 
+def extra(uni, tier, seed):
+    """BOUNDED stand-in (never counted as proved) for the lowering
+    transformations that are not under contract: the original module and
+    the module written after the transformation are compiled with gfortran,
+    linked with one driver (3 inputs) and their outputs compared"""
+    from pyvc.runner import Extra
+    from realise import C06 as R
+    out, n_ok = [], 0
+    for cid, verdict, detail, src in R.lowering_cases():
+        if verdict == "norun":
+            out.append(Extra(f"bounded#lowering[{cid}]", False, detail,
+                             undecided=True, bounded=True))
+        elif verdict == "differs":
+            out.append(Extra(
+                f"bounded#lowering[{cid}]", False, detail[:300],
+                bounded=True, kind="bounded run-time contract: compiled "
+                "original vs lowered module",
+                replay={"confirmed": True, "case": cid,
+                        "input": {"module": src},
+                        "observed": detail[:1500]}))
+        else:
+            n_ok += 1
+    out.append(Extra("bounded#lowering-compiled-equivalence", True,
+                     f"{n_ok} lowerings equal or refused",
+                     kind="bounded run-time contract: gfortran-compiled "
+                          "original vs lowered module, 13 statements, "
+                          "3 inputs each", count=n_ok, bounded=True))
+    return out
+
+
 def replay(name, ob, model, uni):
     from realise import C06 as R
     return R.run(name)
